@@ -85,6 +85,7 @@ def decOp : Sexp → Option HeapOp
     | "unmark", [v] => do pure (.api (.unmark (← nat v)))
     | "mark", [v, m] => do pure (.api (.mark (← nat v) (← str m)))
     | "withMarks", [v, g] => do pure (.api (.withMarks (← nat v) (← nat g)))
+    | "withSameMarks", [v, w] => do pure (.api (.withSameMarks (← nat v) (← nat w)))
     | "opAdd", [v, w] => do pure (.api (.opAdd (← nat v) (← nat w)))
     | "opNegate", [v] => do pure (.api (.opNegate (← nat v)))
     | "opEquals", [v, w] => do pure (.api (.opEquals (← nat v) (← nat w)))
@@ -106,6 +107,7 @@ def decOp : Sexp → Option HeapOp
     | "newPathSet", [] => some (.api .newPathSet)
     | "psAdd", [g, p, h] => do pure (.api (.psAdd (← nat g) (← nat p) (← int h)))
     | "psHas", [g, p, h] => do pure (.api (.psHas (← nat g) (← nat p) (← int h)))
+    | "psRemove", [g, p, h] => do pure (.api (.psRemove (← nat g) (← nat p) (← int h)))
     | "psList", [g, p] => do pure (.api (.psList (← nat g) (← natL p)))
     | "walkBegin", [v] => do pure (.api (.walkBegin (← nat v)))
     | "walkNext", [w] => do pure (.api (.walkNext (← nat w)))
